@@ -62,7 +62,7 @@ static int vp_memcmp(const void *a, const void *b, size_t n)
 /* constant-size copies (struct evbuffer_ptr assignments written as memcpy(&a, &b, sizeof a)) stay with cbmc's own
  * memcpy: copying a struct that holds pointers byte by byte turns every later dereference of the copy into a
  * byte-reassembly expression (search obligations went from seconds to out-of-memory) */
-#define memcpy(d, s, n) (__builtin_constant_p(n) ? __builtin_memcpy((d), (s), (n)) : vp_memcpy((d), (s), (n)))
+#define memcpy(d, s, n) (__builtin_constant_p(n) ? (memcpy)((d), (s), (n)) : vp_memcpy((d), (s), (n)))
 #define memmove vp_memmove
 #define memchr  vp_memchr
 #define memcmp  vp_memcmp
